@@ -126,7 +126,25 @@ void chk_run_case(uint64_t seed, long c, bool is_sweep)
         EP.p_garbage_line = 2; EP.p_long_line = 3; EP.max_cmds = 8;
         eng_gen_table();
         bool has_ro = false, has_wo = false;
+        struct cat_command *wide_cmd = NULL;
         vfail_pct = chance(40) ? 15 : 0;
+        if (chance(6)) {      /* one command with a long variable list (33 .. 72 entries, every access mode at every position) on buffers that hold its texts */
+                struct cat_command *cm = wide_cmd = W.cmd[rn(W.ncmds)];
+                unsigned nv = 33 + rn(40);
+                struct cat_variable *v = w_vars(cm, nv);
+                for (unsigned k = 0; k < nv; k++) {
+                        v[k].type = chance(85) ? (cat_var_type)rn(3) : (cat_var_type)(3 + rn(2)); v[k].access = (cat_var_access)rn(3);
+                        size_t sz = v[k].type <= CAT_VAR_NUM_HEX ? (size_t[]){ 1, 1, 2, 4 }[rn(4)] : 1 + rn(3);
+                        uint8_t *d = w_vdata(&v[k], sz); for (size_t b = 0; b < sz; b++) d[b] = (uint8_t)rnd();
+                        if (v[k].type == CAT_VAR_BUF_STRING) { for (size_t b = 0; b < sz; b++) if (d[b] == 0 || d[b] == '\r') d[b] = 'q'; d[sz - 1] = 0; }
+                        if (chance(10)) v[k].read = hv_read;
+                        if (chance(10)) v[k].write = hv_write;
+                }
+                size_t cap = 24 * (size_t)nv + 64; bool shared = chance(50);
+                w_buffers(shared ? cap * 2 : cap, shared, cap);
+                w_init((int)rn(2));
+                CNT("tables_with_a_command_of_more_than_32_variables");
+        }
         if (W.ncmds >= 2 && chance(30)) {      /* two commands that are views of one variable table (same var pointer, different var_num): what one offers says nothing about the other */
                 for (unsigned k = 0, n = 1 + rn(2); k < n; k++) {
                         struct cat_command *a = W.cmd[rn(W.ncmds)], *b = W.cmd[rn(W.ncmds)];
@@ -163,7 +181,23 @@ void chk_run_case(uint64_t seed, long c, bool is_sweep)
         for (int s = 0; s < nseg; s++) {
                 unsigned nl = 1 + rn(3);
                 for (unsigned l = 0; l < nl; l++) {
-                        if (chance(35)) { const struct cat_command *cm = W.cmd[rn(W.ncmds)]; in_puts("AT"); in_puts(cm->name); in_puts(chance(60) ? "?" : "=?"); in_putc('\n'); }
+                        if (wide_cmd && chance(40)) {      /* a WRITE whose every argument is acceptable, so that the decoder walks the whole list */
+                                in_puts("AT"); in_puts(wide_cmd->name); if (!wide_cmd->implicit_write) in_putc('=');
+                                for (size_t j = 0; j < wide_cmd->var_num; j++) {
+                                        const struct cat_variable *v = &wide_cmd->var[j]; char t[40] = "";
+                                        switch (v->type) {
+                                        case CAT_VAR_INT_DEC: snprintf(t, sizeof t, "%d", (int)rn(200) - 100); break;
+                                        case CAT_VAR_UINT_DEC: snprintf(t, sizeof t, "%u", rn(200)); break;
+                                        case CAT_VAR_NUM_HEX: snprintf(t, sizeof t, "0x%X", rn(200)); break;
+                                        case CAT_VAR_BUF_HEX: for (size_t b = 0; b < v->data_size; b++) snprintf(t + 2 * b, 3, "%02X", rn(256)); break;
+                                        default: { size_t L = rn((unsigned)v->data_size); t[0] = '"'; for (size_t b = 0; b < L; b++) t[1 + b] = (char)('a' + rn(26)); t[1 + L] = '"'; t[2 + L] = 0; } break;
+                                        }
+                                        if (j) in_putc(',');
+                                        in_puts(t);
+                                }
+                                in_putc('\n'); CNT("complete_write_lines_to_a_command_of_more_than_32_variables");
+                        }
+                        else if (chance(35)) { const struct cat_command *cm = W.cmd[rn(W.ncmds)]; in_puts("AT"); in_puts(cm->name); in_puts(chance(60) ? "?" : "=?"); in_putc('\n'); }
                         else eng_gen_line();
                 }
                 seg[s].in_end = INLEN;
